@@ -346,8 +346,10 @@ def R5_tlv_reader(run):
     for at in A.atoms(pe):
         for (op, a, b) in fail_conditions(at):
             for (o, x, y) in ((op, a, b), (A.SWAP[op], b, a)):
-                if o == "Ne" and const_val(y) is not None and "length" in show(x):
-                    sizes.add(const_val(y))
+                if o == "Ne" and const_val(y) is not None and ("length" in show(x) or "from_le_bytes" in show(x)):
+                    # a literal / named constant: the view whose size it is
+                    by_size = {(facts.adts.get(base + v) or {}).get("size"): v for v in ("MemoryMappedTransferFeeConfigExtension", "MemoryMappedTransferHookExtension", "MemoryMappedMemoTransfer")}
+                    sizes.add(by_size.get(const_val(y), const_val(y)))
                 for s in subterms(y):
                     if s[0] == "call" and "size_of<" in s[1] and o == "Ne" and "from_le_bytes" in show(x):
                         sizes.add(s[1][s[1].index("<") + 1:-1].rsplit("::", 1)[-1])
